@@ -34,6 +34,15 @@ impl BoxedFunction {
     { unimplemented!() }
 }
 
+/// Stand-in for `serde::Serialize` as `RuleSet::evaluate` uses it: the only serializer it is given is `ValueSerializer`, whose
+/// `Ok = Value`, `Error = Error`.  ASSUMED: serializing is a function `ser_spec` of the input (deterministic, no effect on the
+/// ruleset or the invocation log).  What `ser_spec` is for each shape of input is C13's subject (Kani, unit `ser`), not this unit's.
+pub trait Serialize {
+    spec fn ser_spec(&self) -> core::result::Result<Value, Error>;
+    fn serialize(&self, serializer: ValueSerializer) -> (r: core::result::Result<Value, Error>)
+        ensures r == self.ser_spec();
+}
+
 /// Stand-in for the user-facing trait `UserFunction` (implemented by user code).  Only what boxing must preserve is modelled.
 pub trait UserFunction: Sized {
     spec fn uf_name(&self) -> &'static str;
